@@ -18,15 +18,26 @@ EXTENDS Speaker, SpeakerDom, Json
 VARIABLES hist, pair
 qvars == <<hist, pair, up, inr, loc, impPol, expPol, inrPol, expEff>>
 
-CONSTANT Resets                    \* subset of {"dir", "both"}: reset only the changed direction, or both
+CONSTANT Resets                    \* subset of {"dir", "both", "refresh"}: reset only the changed direction, or both;
+                                   \* "refresh" (export direction only): NEW is brought into force by a ROUTE-REFRESH
+                                   \* of every neighbour instead of an operator reset, then OLD comes back by a soft
+                                   \* reset out and a further refresh - what a refresh advertised must be withdrawn
+                                   \* by the reset that follows, and the other way round
 Dirs   == {"imp", "exp"}
-Pairs  == {[d |-> d, a |-> a, b |-> b, rs |-> rs] : d \in Dirs, a \in Pols, b \in Pols, rs \in Resets}
+Pairs  == {q \in {[d |-> d, a |-> a, b |-> b, rs |-> rs] : d \in Dirs, a \in Pols, b \in Pols, rs \in Resets} :
+             q.rs = "refresh" => q.d = "exp"}
 
 Codes(p)  == IF PInfo[p].kind = "rs" THEN RsVarCodes ELSE VarCodes
 R(p)      == MkRoute(PInfo, p, RandomElement(Codes(p)))
 SetEv(q, pol)  == [ev |-> IF q.d = "imp" THEN "SetImp" ELSE "SetExp", pol |-> pol]
 ResetEv(q, t)  == [ev |-> IF q.rs = "both" THEN "ResetBoth" ELSE IF q.d = "imp" THEN "ResetIn" ELSE "ResetOut", p |-> t]
 
+RefreshAll == <<[ev |-> "Refresh", p |-> "A"], [ev |-> "Refresh", p |-> "B"], [ev |-> "Refresh", p |-> "C"]>>
+NewInForce(q) == IF q.rs = "refresh" THEN RefreshAll ELSE <<ResetEv(q, "all")>>
+BackToOld(q) == IF q.rs = "refresh"
+                THEN <<SetEv(q, q.a), [ev |-> "ResetOut", p |-> "all"], [ev |-> "Refresh", p |-> "B"],
+                       SetEv(q, q.b), [ev |-> "ResetOut", p |-> "C"], [ev |-> "Refresh", p |-> "A"]>>
+                ELSE <<>>
 Skeleton(q) ==
   << [ev |-> "Up", p |-> "A"], [ev |-> "Up", p |-> "B"], [ev |-> "Up", p |-> "C"],
      [ev |-> "Ann", p |-> "A", x |-> "x1", r |-> R("A")],
@@ -35,9 +46,8 @@ Skeleton(q) ==
      SetEv(q, q.a), ResetEv(q, "all"),
      [ev |-> "Ann", p |-> "B", x |-> "x1", r |-> R("B")],
      [ev |-> "Ann", p |-> "C", x |-> "x1", r |-> R("C")],
-     SetEv(q, q.b), ResetEv(q, "all"),
-     ResetEv(q, "all"),
-     [ev |-> "Ann", p |-> "A", x |-> "x1", r |-> R("A")],
+     SetEv(q, q.b) >> \o NewInForce(q) \o NewInForce(q) \o BackToOld(q) \o
+  << [ev |-> "Ann", p |-> "A", x |-> "x1", r |-> R("A")],
      [ev |-> "Wd", p |-> "C", x |-> "x1"],
      [ev |-> "ResetBoth", p |-> "B"] >>
 
